@@ -496,4 +496,7 @@ def main():
 
 
 if __name__ == "__main__":
-    print("changed:", main())
+    try:
+        print("changed:", main())
+    except Untranslatable as e:          # as a set-up step: the Generated file stays as committed, the checks say SOURCE-TIE-UNAVAILABLE
+        print("unavailable:", e)
